@@ -2,5 +2,17 @@
 
 package limitparallelrequests
 
+import "github.com/plgd-dev/go-coap/v3/message/pool"
+
 // VerifQueues reports the number of per-endpoint queue entries (verification harness only).
 func (c *LimitParallelRequests) VerifQueues() int { return c.endpointQueues.Length() }
+
+// VerifEndpoint reports, for the endpoint req is addressed to, how many requests hold a per-endpoint
+// slot and how many wait in its queue (verification harness only).
+func (c *LimitParallelRequests) VerifEndpoint(req *pool.Message) (admitted int64, waiting int) {
+	_, _ = c.endpointQueues.LoadWithFunc(hash(req.Options()), func(value *endpointQueue) *endpointQueue {
+		admitted, waiting = value.processedCounter, len(value.orderedRequest)
+		return value
+	})
+	return admitted, waiting
+}
